@@ -246,7 +246,10 @@ pub fn gen_params(rng: &mut Rng) -> Value {
         json!(["q", 3, 2]), json!(["q", 2, 1]), json!(["pinf"]),
     ];
     let g = [json!(["q", 0, 1]), json!(["q", 1, 2]), json!(["q", 1, 1]), json!(["q", 2, 1]), json!(["q", 3, 1])];
-    let w = [json!(["ninf"]), json!(["q", -1, 1]), json!(["q", 0, 1]), json!(["q", 1, 2]), json!(["q", 1, 1]), json!(["pinf"])];
+    // (weights of magnitude 1000: weight x regret spread is far beyond the range of exp - the documented softmax is
+    // invariant under a common shift of the exponents and must be computed that way)
+    let w = [json!(["ninf"]), json!(["q", -1, 1]), json!(["q", 0, 1]), json!(["q", 1, 2]), json!(["q", 1, 1]), json!(["pinf"]),
+             json!(["q", -1000, 1]), json!(["q", 1000, 1])];
     json!({"a": gen_e(rng, &ab), "b": gen_e(rng, &ab), "g": gen_e(rng, &g), "w": gen_e(rng, &w)})
 }
 
